@@ -151,10 +151,11 @@ PARTIAL = [
     "pycma wrapper: bounds, finiteness, dtype, reset and convergence on a convex quadratic under every layout of the "
     "ranking values ((n,), (n,1), several columns) are checked on the implementation; pycma's internal update is not "
     "modelled",
-    "'zero parents change nothing' is read as the mean / step-size / path / covariance clause: LM-MA-ES advances its "
-    "generation counter on a zero-parent tell (T18.3 lm_zero_parents says so, CMA-ES likewise advances current_eval), "
-    "and the number of direction vectors applied by the next ask is min(current_gens, n_vectors), so the sampling "
-    "scale can change after a zero-parent tell although mean, sigma and paths do not",
+    "'zero parents change nothing': for LM-MA-ES and sep-CMA-ES the batch after a zero-parent tell is compared "
+    "bit for bit with the batch of an identical optimizer that was not told (the whole state including LM-MA-ES's "
+    "generation counter is unchanged, T18.3 lm_zero_parents: st' = st; D57); CMA-ES advances current_eval, which "
+    "only decides when the lazily refreshed eigensystem is recomputed -- the batches are compared when no refresh "
+    "separates the two copies",
     "CMA-ES C^(-1/2) and the eigensystem are taken from the implementation's public state as parameters of the "
     "update; their consistency with the symmetrised covariance is checked numerically whenever a refresh is due",
 ]
@@ -904,8 +905,28 @@ def tell_part(case, es, op, where, kind, sols, recorded, before, tol, dim, batch
     if sorted(perm) != list(range(batch)) or mu > batch:
         raise Stop("malformed-op")
     twin = copy.deepcopy(es)
+    untold = copy.deepcopy(es) if mu == 0 and kind in ("cma", "sep", "lm") else None
     valsA, valsB = perm_vals(case, op, batch, 0), perm_vals(case, op, batch, 1)
     es.tell(np.array(perm), valsA, mu)
+    if untold is not None:
+        # "zero parents change nothing": the next batch is the batch of a copy that was never told (tell draws
+        # nothing, so both copies sample with the same generator state).
+        told_copy = copy.deepcopy(es)
+        nxt_told = np.asarray(told_copy.ask(), dtype=np.float64)
+        nxt_untold = np.asarray(untold.ask(), dtype=np.float64)
+        if kind == "cma" and told_copy.cov.updated_eval != untold.cov.updated_eval:
+            # the told copy refreshed its (lazily updated, possibly stale) eigensystem and the other did not: both
+            # sample from an admissible decomposition of the same covariance, the batches are not comparable
+            count("cma:zero-parent-next-batch-skipped-lazy-refresh")
+            same = True
+        else:
+            count(f"{kind}:zero-parent-next-batch-compared")
+            same = np.array_equal(nxt_told, nxt_untold)
+        if not same:
+            dev = amax(nxt_told - nxt_untold) if nxt_told.shape == nxt_untold.shape else float("nan")
+            return fail("oracle", where, f"zero parents changed the search distribution: the batch after a zero-parent "
+                        f"tell differs from the batch of an identical optimizer that was not told (max deviation "
+                        f"{dev:.6g}; e.g. first sample {nxt_told[0].tolist()[:4]} vs {nxt_untold[0].tolist()[:4]})")
     twin.tell(np.array(perm), valsB, mu)
     d = diff_public(es, twin)
     if d:
@@ -982,13 +1003,15 @@ def cma_like_tell(case, es, kind, before, sols, recorded, perm, mu, where, tol, 
             return fail("oracle", where, f"diagonal covariance not positive: {C.tolist()}")
     # ---- oracle: zero parents change nothing / mean is the weighted average
     cnt = "gens" if kind == "lm" else "evals"
-    want_cnt = before[cnt] + (1 if kind == "lm" else len(perm))
+    # LM-MA-ES: the generation counter is part of the sampling distribution (min(current_gens, n_vectors) direction
+    # vectors are applied by ask), so a zero-parent tell must leave it alone
+    want_cnt = before[cnt] + ((0 if mu == 0 else 1) if kind == "lm" else len(perm))
     if after[cnt] != want_cnt:
         return fail("oracle", where, f"counter {cnt} = {after[cnt]}, expected {want_cnt}")
     if mu == 0:
         count(f"{kind}:zero-parent-tells")
         for name in before:
-            if name in (cnt, "updated"):
+            if name == "updated" or (name == cnt and kind != "lm"):
                 continue
             if not np.array_equal(np.asarray(before[name]), np.asarray(after[name])):
                 return fail("oracle", where, f"zero parents changed {name}")
